@@ -54,7 +54,9 @@ class World:
         self.threshold = threshold
         self.plan = seams.FaultPlan()
         cls = make_antenna_class(pyrex, threshold)
-        self.antennas = [cls(position=(0.0, 10.0 * i, -80.0 - 10.0 * i), noisy=noisy,
+        # with noisy == "mixed" every other antenna is noiseless (it never has a noise basis)
+        self.antennas = [cls(position=(0.0, 10.0 * i, -80.0 - 10.0 * i),
+                             noisy=(bool(i % 2) if noisy == "mixed" else bool(noisy)),
                              freq_range=(0.05 / DT, 0.4 / DT), noise_rms=0.05,
                              unique_noise_waveforms=2) for i in range(n_ant)]
         if use_proxies:
